@@ -7,3 +7,27 @@ add("C03", "exploration",
     SIM_NOTE + " Map iteration inside dependencies is not seamed (audited by ./check selftest with the uninstrumented twin).",
     "deterministic simulation: seeded schedule exploration of map-iteration order, differential against the identity schedule",
     "DESIGN.md section 4, C03")
+
+add("C06", "exploration",
+    "Seeded search over (include file, exclude files, suffix pairs) x schedules of the pair-map and include-map iteration; the generated regex is judged against a reference set-difference / suffix-rewrite model on the structure (membership of every word of a finite universe, and byte equality with the program that has the model's result typed in place).",
+    SIM_NOTE + " Where the statement picks no winner (competing pairs, duplicates) every reading is accepted.",
+    "deterministic simulation: schedule exploration at the pair-map / include-map seams + reference-model oracle over generated histories",
+    "DESIGN.md section 4, C06")
+
+add("C07", "exploration",
+    "Seeded search over definition graphs x permutations and placements of the definition lines x schedules of the three definition-map iteration sites; stdout/exit of generate must equal those of the program expanded by a reference substitution (which passes through no definition map).",
+    SIM_NOTE,
+    "deterministic simulation: schedule exploration at the definition-map seams x line permutations, reference substitution model",
+    "DESIGN.md section 4, C07")
+
+add("C09", "exploration",
+    "Histories check / format / check / format / check / format over one simulated disk, each step under its own schedule; invariants over the recorded history: idempotence (bytes after 2nd and 3rd format), agreement of --check with format, a write monitor (tree snapshot with mtime + traced write calls) for --check, and equality with a reference rendering of the canonical layout.",
+    SIM_NOTE,
+    "deterministic simulation: model-based checking of operation histories over a simulated disk, with write monitor and per-step schedules",
+    "DESIGN.md section 4, C09")
+
+add("C10", "exploration",
+    "Histories generate / format / generate over one simulated disk; the regex (or the failure) must be the same before and after, and the white-space-stripped line sequence may only gain the header and lose trailing blank lines. Inputs include token soup on which the formatter's fixed pattern chain and the compiler's pattern set classify lines differently.",
+    SIM_NOTE,
+    "deterministic simulation: history check generate -> format -> generate on one disk, line-sequence frame condition",
+    "DESIGN.md section 4, C10")
